@@ -4,7 +4,8 @@
 (* binding, harness/check_c07.py) against Sockets.tla.                     *)
 (*                                                                         *)
 (* IOEnv.TRACE_FILE: a JSON array of traces                                *)
-(*    [rp |-> [inet |-> BOOLEAN, unix |-> BOOLEAN],                        *)
+(*    [rp |-> [inet |-> BOOLEAN, unix |-> BOOLEAN], si |-> "none"|NAME,    *)
+(*     watchers |-> <<names>>,                                             *)
 (*     lines |-> << [ev |-> <<kind, watcher, index>>, obs |-> Obs] ... >>] *)
 (* whose first line is <<"boot", "", 0>>.  Obs is the projection Proj of   *)
 (* Sockets.tla computed by the harness from /proc/<worker>/fd as recorded  *)
@@ -25,7 +26,8 @@ Traces == JsonDeserialize(IOEnv.TRACE_FILE)
 VARIABLES tid, l, div, bad
 
 TInit == /\ tid \in 1..Len(Traces)
-         /\ s = Boot(Traces[tid].rp)
+         /\ s = Boot([rp |-> Traces[tid].rp, si |-> Traces[tid].si,
+                      ws |-> {Traces[tid].watchers[i] : i \in 1..Len(Traces[tid].watchers)}])
          /\ hist = <<>>
          /\ l = 0 /\ div = 0 /\ bad = {}
 
